@@ -87,8 +87,9 @@ impl fmt::Display for Expression {
     fn fmt(&self, f: &mut fmt::Formatter<'_>) -> fmt::Result {
         let mut syms = default_symbol_table();
         let expr = self.convert(&mut syms);
-        let s = expr.print(&syms).unwrap();
-        write!(f, "{}", s)
+        // ops are not validated when a block, a snapshot or a policy set is loaded:
+        // a malformed op sequence prints as a placeholder instead of panicking
+        write!(f, "{}", syms.print_expression(&expr))
     }
 }
 
